@@ -556,7 +556,48 @@ def _variable_positions(vt: int, vd: int, pos: int, via: int) -> bool:
     return result(ok, True)
 
 
+# ---- the SAME argument value spelled differently on two merged fields: equal values are equal arguments (insignificant characters are insignificant inside literals too)
+SPELLINGS = (
+    ("ids", ("[1, 2]", "[1 2]", "[1,2,]", "[ 1 , 2 ]", "[1 #c\n 2]", "[1,,, 2]", "[\n1\n2\n]")),
+    ("ids", ("[]", "[ ]", "[,]", "[#c\n]")),
+    ("f", ("{a: 1, b: [2]}", "{a:1 b:[2]}", "{ a : 1 , b : [ 2 ] }", "{a: 1, #c\n b: [2,]}")),
+    ("f", ("{sub: {a: 1}}", "{sub:{a:1}}", "{ sub: { a: 1 , } }")),
+    ("s", ("\"A\"", "\"\\u0041\"")),
+    ("s", ("\"a b\"", "\"a\\u0020b\"")),
+)
+OTHER_VALUES = {"ids": "[2, 1]", "f": "{a: 2}", "s": "\"B\""}
+SPELL_SHAPES = ("{ search(%A) search(%B) }", "{ search(%A) ... on Query { search(%B) } }", "{ ...F search(%B) } fragment F on Query { search(%A) }",
+                "{ a: me { name } x: search(%A) x: search(%B) }")
+
+
+def _argument_spellings(group: int, i: int, j: int, shape: int, differ: bool) -> bool:
+    """
+    pre: 0 <= group < len(SPELLINGS) and 0 <= i < 7 and 0 <= j < 7 and 0 <= shape < len(SPELL_SHAPES)
+    pre: shard_of(shape)
+    post: _
+    """
+    arg, forms = pick(group, SPELLINGS)
+    if i >= len(forms) or j >= len(forms):
+        return result(True, False)
+    A1, A2 = forms[concrete_int(i, 0, 6)], forms[concrete_int(j, 0, 6)]
+    SH, DF = pick(shape, SPELL_SHAPES), (True if differ else False)
+    with untraced():
+        if DF:
+            A2 = OTHER_VALUES[arg]           # a really different value: the conflict must be reported
+        text = SH.replace("%A", "%s: %s" % (arg, A1)).replace("%B", "%s: %s" % (arg, A2))
+        rules, verdict = violated_rules(parse(text))
+        if DF:
+            ok = rules == ["OverlappingFieldsCanBeMergedChecker"] and not verdict
+        else:
+            ok = rules == [] and verdict
+    return result(ok, not DF)
+
+
 CONDITIONS = [
+    Cond(name="argument_spellings", fn=_argument_spellings, quick=60, thorough=120, shards_quick=4, shards_thorough=4,
+         bound="two merged fields carrying the same argument value in two SPELLINGS (list / object / nested literals with other blanks, commas, comments, line breaks inside; strings with and without \\u escapes; every ordered pair of 2..7 "
+               "spellings of 6 values) x 4 ways of merging (same set, inline fragment, named fragment, aliases): no error; with a really different value: exactly the field-merging rule reports",
+         symbolic={"group,i,j,shape": "choice", "differ": "choice: same value / another value"}, witness={"group": 0, "i": 0, "j": 1, "shape": 0, "differ": False}),
     Cond(
         name="metamorphic", fn=_metamorphic, quick=250, thorough=900, per_path=60, shards_quick=16, shards_thorough=30,
         bound="%d documents (valid templates + adversarial invalid ones) x subsets of 8 validity-preserving transformations (reverse/rotate definitions, reverse selections, reverse arguments and object fields, "
